@@ -238,7 +238,7 @@ def lanePipe : List String → String
       some cc, some rc, some body, some ag =>
       let bs? : Option Req.Merge.BodySpec :=
         if bk == "none" then some .none else if bk == "bytes" then some (.bytes body)
-        else if bk == "reader" then some (.reader body) else none
+        else if bk == "reader" then some (.reader body) else if bk == "func" then some (.func body) else none
       match bs? with
       | none => "bad-op"
       | some bs =>
@@ -252,7 +252,7 @@ def lanePipe : List String → String
         | .error _ => "err"
         | .ok r =>
           showUrl r.url ++ s!" m={encodeHex r.method} host={encodeHex r.host} hdr={encodeHdr r.header} " ++
-            s!"cl={r.contentLength} hasbody={b01 r.hasBody} " ++ Wire.showBlob r.body
+            s!"cl={r.contentLength} hasbody={b01 r.hasBody} getbody={b01 r.getBody} " ++ Wire.showBlob r.body
     | _, _, _, _, _, _, _, _, _, _, _, _, _, _ => "bad-op"
   | _ => "bad-op"
 
